@@ -5,8 +5,117 @@ no false convergence (C04).
 import MstVerif.Proofs.DiffTree
 import MstVerif.Proofs.History
 
+set_option linter.unusedSectionVars false
+set_option linter.unusedVariables false
+
 namespace Mst
 variable {K V D : Type} [LinearOrder K] [DecidableEq D]
+
+/-! ### Helpers: what `Hashed` gives, and the shape of `pageRanges` -/
+
+/-- Inversion of `rangeOf`, including the digest. -/
+theorem rangeOf_inv (hc : HashCfg K V D) (q : Pg K V D) (r : PR K D)
+    (h : rangeOf hc q = some r) :
+    ∃ a z, q.content.head? = some a ∧ q.content.getLast? = some z ∧
+      r.start = a.1 ∧ r.end_ = z.1 ∧ q.trueHash hc = some r.hash := by
+  unfold rangeOf at h
+  split at h
+  · rename_i a b d h1 h2 h3
+    simp only [Option.some.injEq] at h
+    subst h
+    exact ⟨a, b, h1, h2, rfl, rfl, h3⟩
+  · simp at h
+
+theorem exists_head_last {α : Type} {l : List α} (h : l ≠ []) :
+    ∃ a z, l.head? = some a ∧ l.getLast? = some z := by
+  cases hl : l.getLast? with
+  | none => exact absurd (List.getLast?_eq_none_iff.1 hl) h
+  | some z =>
+    cases l with
+    | nil => exact absurd rfl h
+    | cons x xs => exact ⟨x, z, rfl, rfl⟩
+
+/-- The facts a hashed tree provides about its root page. -/
+theorem Hashed.facts {lvl : K → Nat} {hc : HashCfg K V D} {t : Tree K V D}
+    (h : Hashed lvl hc t) :
+    ∃ L c n hp, t.root = .some L c n hp ∧ CleanPg hc t.root ∧ t.root.Sorted ∧
+      (t.root.content ≠ [] → LvPg lvl (L + 1) t.root) := by
+  obtain ⟨hinv, hh⟩ := h
+  obtain ⟨d, hd⟩ := Option.isSome_iff_exists.1 hh
+  have hcache := hinv.rootHash d hd
+  have hshape := hinv.shape
+  have hok := hinv.cacheOK
+  have hsorted := hinv.sorted
+  obtain ⟨root, rh⟩ := t
+  dsimp only at hcache hshape hok hsorted ⊢
+  cases root with
+  | none => exact absurd hshape (by simp [LvRoot])
+  | some L c n hp =>
+    refine ⟨L, c, n, hp, rfl, ?_, hsorted, ?_⟩
+    · simp only [CacheOKPg] at hok
+      simp only [Pg.cache?] at hcache
+      exact hok.1 (by simp [hcache])
+    · intro hne
+      simp only [LvRoot] at hshape
+      simp only [LvPg]
+      refine ⟨Nat.lt_succ_self _, ?_, hshape.2.1, hshape.2.2⟩
+      intro hn
+      obtain ⟨-, hh'⟩ := hshape.1 hn
+      subst hn; subst hh'
+      exact hne (by simp [Pg.content, Nd.content])
+
+/-- Every range of `pageRanges` is the range of a page of the tree. -/
+theorem mem_pageRanges {hc : HashCfg K V D} {t : Tree K V D} {r : PR K D}
+    (hr : r ∈ pageRanges hc t) : ∃ q ∈ t.root.preorder, rangeOf hc q = some r := by
+  unfold pageRanges at hr
+  split at hr
+  · simp at hr
+  · exact List.mem_filterMap.1 hr
+
+theorem pageRanges_of_nil {hc : HashCfg K V D} {t : Tree K V D} (h : t.root.content = []) :
+    pageRanges hc t = [] := by
+  unfold pageRanges
+  rw [h]
+
+/-- Page ranges of a real tree are well-formed (self-contained version). -/
+theorem pageRanges_valid' {lvl : K → Nat} {hc : HashCfg K V D} {t : Tree K V D}
+    (h : Hashed lvl hc t) : PRValid (pageRanges hc t) := by
+  intro r hr
+  obtain ⟨q, hq, hrq⟩ := mem_pageRanges hr
+  obtain ⟨a, z, ha, hz, e1, e2, -⟩ := rangeOf_inv hc q r hrq
+  obtain ⟨L, c, n, hp, -, -, hs, -⟩ := h.facts
+  obtain ⟨pre, suf, e⟩ := preorder_infix t.root q hq
+  have hpw : PW (pre ++ q.content ++ suf) := e ▸ hs.pw
+  rw [e1, e2]
+  exact hpw.left.right.head_le ha (mem_of_getLast? hz)
+
+/-- Non-empty hashed tree: the root range spans the whole content and carries the root's true
+digest; the remaining ranges are those of the proper descendants. -/
+theorem pageRanges_decomp {lvl : K → Nat} {hc : HashCfg K V D} {t : Tree K V D}
+    (h : Hashed lvl hc t) (a z : K × V) (ha : t.root.content.head? = some a)
+    (hz : t.root.content.getLast? = some z) :
+    ∃ L c n hp d, t.root = .some L c n hp ∧ LvPg lvl (L + 1) (.some L c n hp) ∧
+      t.root.trueHash hc = some d ∧
+      rangeOf hc (.some L c n hp) = some { start := a.1, end_ := z.1, hash := d } ∧
+      pageRanges hc t = { start := a.1, end_ := z.1, hash := d } ::
+        (n.preorder ++ hp.preorder).filterMap (rangeOf hc) := by
+  obtain ⟨L, c, n, hp, hroot, -, -, hlv⟩ := h.facts
+  have hne : t.root.content ≠ [] := by
+    intro e; rw [e] at ha; simp at ha
+  have hlv' := hlv hne
+  obtain ⟨a', z', d, ha', hz', hd, hr⟩ :=
+    rangeOf_some lvl hc (L + 1) t.root hlv' (by rw [hroot]; rfl)
+  rw [ha] at ha'; rw [hz] at hz'
+  simp only [Option.some.injEq] at ha' hz'
+  subst ha'; subst hz'
+  refine ⟨L, c, n, hp, d, hroot, hroot ▸ hlv', hd, hroot ▸ hr, ?_⟩
+  unfold pageRanges
+  split
+  · rename_i e; exact absurd e hne
+  · rw [hroot] at hr ⊢
+    simp only [Pg.preorder, List.filterMap_cons, hr]
+
+/-! ### Soundness of consistent marks -/
 
 /-- Consistent marks are sound: a peer entry inside a range marked consistent is held identically
 by the local tree (up to collisions of the page digest). -/
@@ -16,7 +125,39 @@ theorem consistent_sound (lvl : K → Nat) (hc : HashCfg K V D) (tL tP : Tree K 
     (b : Builder K) (hw : diffWalk (pageRanges hc tL) (pageRanges hc tP) = .ok b)
     (kv : K × V) (hkv : kv ∈ tP.root.content) (hcov : Covered kv.1 b.good) :
     kv ∈ tL.root.content := by
-  sorry
+  obtain ⟨g, hg, hg1, hg2⟩ := hcov
+  obtain ⟨p, hp, l, hl, hgp, hh⟩ := diffWalk_good_justified _ _ b hw g hg
+  obtain ⟨P, hPm, hPr⟩ := mem_pageRanges hp
+  obtain ⟨Q, hQm, hQr⟩ := mem_pageRanges hl
+  obtain ⟨a, z, ha, hz, e1, e2, hPh⟩ := rangeOf_inv hc P p hPr
+  obtain ⟨a', z', ha', hz', e1', e2', hQh⟩ := rangeOf_inv hc Q l hQr
+  obtain ⟨_, _, _, _, -, -, hsP, -⟩ := hP.facts
+  have hcf' : CollisionFree hc (Q.allToks hc ++ P.allToks hc) := by
+    refine CollisionFree.mono hc ?_ hcf
+    intro x hx
+    rcases List.mem_append.1 hx with hx | hx
+    · exact List.mem_append_left _ (preorder_allToks hc _ Q hQm x hx)
+    · exact List.mem_append_right _ (preorder_allToks hc _ P hPm x hx)
+  have hcont : Q.content = P.content :=
+    merkle_inj hc Q P hcf' (by rw [hQh, hPh, hh])
+  subst hgp
+  have hin : kv ∈ P.content :=
+    preorder_contiguous tP.root P hsP hPm a z ha hz kv hkv (e1 ▸ hg1) (e2 ▸ hg2)
+  exact preorder_content_subset tL.root Q hQm kv (hcont ▸ hin)
+
+/-! ### Completeness under the span condition -/
+
+/-- `diff` = walk + `into_diff_vec`, on valid lists: whatever the walk marks inconsistent and not
+consistent is returned. -/
+theorem diff_covered_of_walk (loc peer : List (PR K D)) (hl : PRValid loc) (hp : PRValid peer)
+    (hne : peer ≠ []) :
+    ∃ b out, diffWalk loc peer = .ok b ∧ diff loc peer = .ok out ∧
+      (∀ x, Covered x b.bad → ¬ Covered x b.good → Covered x out) := by
+  obtain ⟨b, hw, hbv, hgv⟩ := diffWalk_total loc peer hl hp
+  obtain ⟨out, hout, -, -, -, hcov, -⟩ := intoDiffVec_spec b hbv hgv
+  refine ⟨b, out, hw, ?_, hcov⟩
+  rw [diff_eq_walk loc peer hne, hw]
+  exact hout
 
 /-- C07: under the span condition every entry the peer holds that the local tree lacks, or holds
 with another value digest, lies inside a returned range. -/
@@ -26,7 +167,205 @@ theorem diff_trees_complete (lvl : K → Nat) (hc : HashCfg K V D) (tL tP : Tree
     (hspan : SpanCovers tL tP)
     (kv : K × V) (hkv : kv ∈ tP.root.content) (hdiff : kv ∉ tL.root.content) :
     ∃ out, diff (pageRanges hc tL) (pageRanges hc tP) = .ok out ∧ Covered kv.1 out := by
-  sorry
+  obtain ⟨_, _, _, _, -, -, hsP, -⟩ := hP.facts
+  have hneP : tP.root.content ≠ [] := by
+    intro e; rw [e] at hkv; simp at hkv
+  obtain ⟨a, z, ha, hz⟩ := exists_head_last hneP
+  obtain ⟨LP, cP, nP, hpP, d, hrootP, hlvP, hdP, hrngP, hprP⟩ := pageRanges_decomp hP a z ha hz
+  have hvL := pageRanges_valid' hL
+  have hvP := pageRanges_valid' hP
+  have haz : a.1 ≤ z.1 := hsP.pw.head_le ha (mem_of_getLast? hz)
+  obtain ⟨b, out, hw, hd, hcov⟩ :=
+    diff_covered_of_walk _ _ hvL hvP (by rw [hprP]; simp)
+  refine ⟨out, hd, hcov _ ?_ ?_⟩
+  · -- the whole peer span is marked inconsistent
+    show ∃ r ∈ b.bad, DR.mem kv.1 r
+    refine ⟨(a.1, z.1), ?_, And.intro (hsP.pw.head_le ha hkv) (hsP.pw.le_last hz hkv)⟩
+    rw [hprP] at hw
+    by_cases hcL : tL.root.content = []
+    · rw [pageRanges_of_nil hcL, diffWalk_local_empty _ _ haz] at hw
+      simp only [Except.ok.injEq] at hw
+      subst hw
+      simp
+    · obtain ⟨a', z', ha', hz'⟩ := exists_head_last hcL
+      obtain ⟨LL, cL, nL, hpL, d', hrootL, hlvL, hdL, hrngL, hprL⟩ :=
+        pageRanges_decomp hL a' z' ha' hz'
+      obtain ⟨_, _, _, _, -, -, hsL, -⟩ := hL.facts
+      rw [hprL] at hw
+      refine diffWalk_head_within _ _ _ _ haz ?_ ?_ ?_ b hw
+      · -- the peer root spans the local root
+        rw [supersetOf_iff]
+        have hk1 : a'.1 ∈ tL.root.keys := List.mem_map_of_mem (mem_of_head? ha')
+        have hk2 : z'.1 ∈ tL.root.keys := List.mem_map_of_mem (mem_of_getLast? hz')
+        obtain ⟨⟨x, hx, hxa⟩, -⟩ := hspan _ hk1
+        obtain ⟨-, ⟨y, hy, hzy⟩⟩ := hspan _ hk2
+        obtain ⟨x', hx', rfl⟩ := List.mem_map.1 hx
+        obtain ⟨y', hy', rfl⟩ := List.mem_map.1 hy
+        exact ⟨le_trans (hsP.pw.head_le ha hx') hxa, le_trans hzy (hsP.pw.le_last hz hy')⟩
+      · -- no proper descendant of the local root spans the peer root
+        intro v hv
+        have hvm : v ∈ (nL.preorder ++ hpL.preorder).filterMap (rangeOf hc) := mem_of_head? hv
+        obtain ⟨q, hq, hqv⟩ := List.mem_filterMap.1 hvm
+        have hns := descendant_not_superset lvl hc (LL + 1) LL cL nL hpL hlvL
+          (hrootL ▸ hsL) q hq _ v hrngL hqv
+        cases hsup : v.supersetOf
+            ({ start := a.1, end_ := z.1, hash := d } : PR K D) with
+        | false => rfl
+        | true =>
+          exfalso
+          rw [supersetOf_iff] at hsup
+          dsimp only at hsup hns
+          have hk1 : a'.1 ∈ tL.root.keys := List.mem_map_of_mem (mem_of_head? ha')
+          have hk2 : z'.1 ∈ tL.root.keys := List.mem_map_of_mem (mem_of_getLast? hz')
+          obtain ⟨⟨x, hx, hxa⟩, -⟩ := hspan _ hk1
+          obtain ⟨-, ⟨y, hy, hzy⟩⟩ := hspan _ hk2
+          obtain ⟨x', hx', rfl⟩ := List.mem_map.1 hx
+          obtain ⟨y', hy', rfl⟩ := List.mem_map.1 hy
+          exact hns ⟨le_trans hsup.1 (le_trans (hsP.pw.head_le ha hx') hxa),
+            le_trans (le_trans hzy (hsP.pw.le_last hz hy')) hsup.2⟩
+      · -- the root digests differ, else the contents would agree
+        intro hdd
+        dsimp only at hdd
+        have hcont : tL.root.content = tP.root.content :=
+          merkle_inj hc tL.root tP.root hcf (by rw [hdL, hdP, hdd])
+        exact hdiff (hcont ▸ hkv)
+  · intro hc'
+    exact hdiff (consistent_sound lvl hc tL tP hL hP hcf b hw kv hkv hc')
+
+/-! ### No false convergence -/
+
+/-- A walk that marks something inconsistent and nothing consistent yields a non-empty diff. -/
+theorem diff_ne_nil_of_walk (loc peer : List (PR K D)) (hne : peer ≠ []) (b : Builder K)
+    (hw : diffWalk loc peer = .ok b) (hb : DRValid b.bad) (hg : b.good = []) (x : K)
+    (hx : Covered x b.bad) : diff loc peer ≠ .ok [] := by
+  obtain ⟨out, hout, -, -, -, hcov, -⟩ :=
+    intoDiffVec_spec b hb (by rw [hg]; intro r hr; simp at hr)
+  rw [diff_eq_walk loc peer hne, hw]
+  dsimp only
+  rw [hout]
+  intro h
+  simp only [Except.ok.injEq] at h
+  have := hcov x hx (by rw [hg]; exact covered_nil x)
+  rw [h] at this
+  exact covered_nil x this
+
+/-- An empty replica never sees an empty diff against a non-empty peer. -/
+theorem nfc_empty {lvl : K → Nat} {hc : HashCfg K V D} {tL tP : Tree K V D}
+    (hL : Hashed lvl hc tL) (hP : Hashed lvl hc tP) (he : tL.root.content = [])
+    (h : diff (pageRanges hc tL) (pageRanges hc tP) = .ok []) : tP.root.content = [] := by
+  by_contra hne
+  obtain ⟨a, z, ha, hz⟩ := exists_head_last hne
+  obtain ⟨_, _, _, _, -, -, hsP, -⟩ := hP.facts
+  obtain ⟨LP, cP, nP, hpP, d, -, -, -, -, hprP⟩ := pageRanges_decomp hP a z ha hz
+  have haz : a.1 ≤ z.1 := hsP.pw.head_le ha (mem_of_getLast? hz)
+  rw [pageRanges_of_nil he, hprP] at h
+  refine diff_ne_nil_of_walk _ _ (by simp) _ (diffWalk_local_empty _ _ haz) ?_ rfl a.1 ?_ h
+  · intro r hr
+    simp only [List.mem_singleton] at hr
+    subst hr; exact haz
+  · exact ⟨(a.1, z.1), by simp, And.intro (le_refl _) haz⟩
+
+/-- Peer starts strictly first and ends strictly first: the diff is not empty. -/
+theorem nfc_lt {lvl : K → Nat} {hc : HashCfg K V D} {tL tP : Tree K V D}
+    (hL : Hashed lvl hc tL) (hP : Hashed lvl hc tP)
+    (a z a' z' : K × V)
+    (ha : tP.root.content.head? = some a) (hz : tP.root.content.getLast? = some z)
+    (ha' : tL.root.content.head? = some a') (hz' : tL.root.content.getLast? = some z')
+    (h1 : a.1 < a'.1) (h2 : z.1 < z'.1) :
+    diff (pageRanges hc tL) (pageRanges hc tP) ≠ .ok [] := by
+  obtain ⟨_, _, _, _, -, -, hsP, -⟩ := hP.facts
+  obtain ⟨LP, cP, nP, hpP, d, -, -, -, -, hprP⟩ := pageRanges_decomp hP a z ha hz
+  obtain ⟨LL, cL, nL, hpL, d', -, -, -, -, hprL⟩ := pageRanges_decomp hL a' z' ha' hz'
+  have haz : a.1 ≤ z.1 := hsP.pw.head_le ha (mem_of_getLast? hz)
+  rw [hprP, hprL]
+  have hinc := diffWalk_head_incomparable
+    ({ start := a'.1, end_ := z'.1, hash := d' } : PR K D)
+    ((nL.preorder ++ hpL.preorder).filterMap (rangeOf hc))
+    ({ start := a.1, end_ := z.1, hash := d } : PR K D)
+    ((nP.preorder ++ hpP.preorder).filterMap (rangeOf hc))
+    (by
+      cases hs : PR.supersetOf ({ start := a.1, end_ := z.1, hash := d } : PR K D)
+          ({ start := a'.1, end_ := z'.1, hash := d' } : PR K D) with
+      | false => rfl
+      | true =>
+        rw [supersetOf_iff] at hs
+        exact absurd (lt_of_lt_of_le h2 hs.2) (lt_irrefl _))
+    (by
+      cases hs : PR.supersetOf ({ start := a'.1, end_ := z'.1, hash := d' } : PR K D)
+          ({ start := a.1, end_ := z.1, hash := d } : PR K D) with
+      | false => rfl
+      | true =>
+        rw [supersetOf_iff] at hs
+        exact absurd (lt_of_lt_of_le h1 hs.1) (lt_irrefl _))
+  dsimp only at hinc
+  have hle : a.1 ≤ (if z.1 < a'.1 then z.1 else a'.1) := by
+    split
+    · exact haz
+    · exact le_of_lt h1
+  rw [if_pos hle] at hinc
+  refine diff_ne_nil_of_walk _ _ (by simp) _ hinc ?_ rfl a.1 ?_
+  · intro r hr
+    simp only [List.mem_singleton] at hr
+    subst hr; exact hle
+  · exact ⟨(a.1, if z.1 < a'.1 then z.1 else a'.1), by simp, And.intro (le_refl _) hle⟩
+
+theorem Hashed.ksorted {lvl : K → Nat} {hc : HashCfg K V D} {t : Tree K V D}
+    (h : Hashed lvl hc t) : KSorted t.root.content := h.inv.sorted
+
+/-- Under the span condition, an empty diff means the local tree holds every peer entry. -/
+theorem nfc_subset {lvl : K → Nat} {hc : HashCfg K V D} {tL tP : Tree K V D}
+    (hL : Hashed lvl hc tL) (hP : Hashed lvl hc tP)
+    (hcf : CollisionFree hc (tL.root.allToks hc ++ tP.root.allToks hc))
+    (hspan : SpanCovers tL tP)
+    (h : diff (pageRanges hc tL) (pageRanges hc tP) = .ok []) :
+    ∀ kv ∈ tP.root.content, kv ∈ tL.root.content := by
+  intro kv hkv
+  by_contra hn
+  obtain ⟨out, hout, hcov⟩ := diff_trees_complete lvl hc tL tP hL hP hcf hspan kv hkv hn
+  rw [h] at hout
+  simp only [Except.ok.injEq] at hout
+  subst hout
+  exact covered_nil _ hcov
+
+theorem CollisionFree.swap (hc : HashCfg K V D) {S T : List (PageTok K V D)}
+    (h : CollisionFree hc (S ++ T)) : CollisionFree hc (T ++ S) :=
+  CollisionFree.mono hc (fun x hx => by
+    rcases List.mem_append.1 hx with hx | hx
+    · exact List.mem_append_right _ hx
+    · exact List.mem_append_left _ hx) h
+
+/-- C04 when one span encloses the other. -/
+theorem nfc_span {lvl : K → Nat} {hc : HashCfg K V D} {tA tB : Tree K V D}
+    (hA : Hashed lvl hc tA) (hB : Hashed lvl hc tB)
+    (hcf : CollisionFree hc (tA.root.allToks hc ++ tB.root.allToks hc))
+    (h1 : diff (pageRanges hc tA) (pageRanges hc tB) = .ok [])
+    (h2 : diff (pageRanges hc tB) (pageRanges hc tA) = .ok [])
+    (a0 a1 b0 b1 : K × V)
+    (ha0 : tA.root.content.head? = some a0) (ha1 : tA.root.content.getLast? = some a1)
+    (hb0 : tB.root.content.head? = some b0) (hb1 : tB.root.content.getLast? = some b1)
+    (hlo : b0.1 ≤ a0.1) (hhi : a1.1 ≤ b1.1) :
+    tA.root.content = tB.root.content := by
+  obtain ⟨_, _, _, _, -, -, hsA, -⟩ := hA.facts
+  obtain ⟨_, _, _, _, -, -, hsB, -⟩ := hB.facts
+  have hspanAB : SpanCovers tA tB := by
+    intro x hx
+    obtain ⟨x', hx', rfl⟩ := List.mem_map.1 hx
+    exact ⟨⟨b0.1, List.mem_map_of_mem (mem_of_head? hb0),
+        le_trans hlo (hsA.pw.head_le ha0 hx')⟩,
+      ⟨b1.1, List.mem_map_of_mem (mem_of_getLast? hb1),
+        le_trans (hsA.pw.le_last ha1 hx') hhi⟩⟩
+  have hBA := nfc_subset hA hB hcf hspanAB h1
+  have hb0A := hBA _ (mem_of_head? hb0)
+  have hb1A := hBA _ (mem_of_getLast? hb1)
+  have hspanBA : SpanCovers tB tA := by
+    intro x hx
+    obtain ⟨x', hx', rfl⟩ := List.mem_map.1 hx
+    exact ⟨⟨a0.1, List.mem_map_of_mem (mem_of_head? ha0),
+        le_trans (hsA.pw.head_le ha0 hb0A) (hsB.pw.head_le hb0 hx')⟩,
+      ⟨a1.1, List.mem_map_of_mem (mem_of_getLast? ha1),
+        le_trans (hsB.pw.le_last hb1 hx') (hsA.pw.le_last ha1 hb1A)⟩⟩
+  have hAB := nfc_subset hB hA (CollisionFree.swap hc hcf) hspanBA h2
+  exact ksorted_ext _ _ hA.ksorted hB.ksorted (fun kv => ⟨hAB kv, hBA kv⟩)
 
 /-- C04: empty diffs in both directions imply equal content. -/
 theorem no_false_convergence (lvl : K → Nat) (hc : HashCfg K V D) (tA tB : Tree K V D)
@@ -35,6 +374,34 @@ theorem no_false_convergence (lvl : K → Nat) (hc : HashCfg K V D) (tA tB : Tre
     (h1 : diff (pageRanges hc tA) (pageRanges hc tB) = .ok [])
     (h2 : diff (pageRanges hc tB) (pageRanges hc tA) = .ok []) :
     tA.root.content = tB.root.content := by
-  sorry
+  by_cases hBe : tB.root.content = []
+  · rw [hBe]; exact nfc_empty hB hA hBe h2
+  by_cases hAe : tA.root.content = []
+  · rw [hAe]; exact (nfc_empty hA hB hAe h1).symm
+  obtain ⟨a0, a1, ha0, ha1⟩ := exists_head_last hAe
+  obtain ⟨b0, b1, hb0, hb1⟩ := exists_head_last hBe
+  by_cases hi : b0.1 ≤ a0.1 ∧ a1.1 ≤ b1.1
+  · exact nfc_span hA hB hcf h1 h2 a0 a1 b0 b1 ha0 ha1 hb0 hb1 hi.1 hi.2
+  by_cases hii : a0.1 ≤ b0.1 ∧ b1.1 ≤ a1.1
+  · exact (nfc_span hB hA (CollisionFree.swap hc hcf) h2 h1 b0 b1 a0 a1 hb0 hb1 ha0 ha1
+      hii.1 hii.2).symm
+  exfalso
+  rcases lt_or_ge a0.1 b0.1 with hlt | hge
+  · -- `A` starts first; it must also end first
+    have hlt2 : a1.1 < b1.1 := by
+      by_contra hn
+      exact hii ⟨le_of_lt hlt, not_lt.1 hn⟩
+    exact nfc_lt hB hA a0 a1 b0 b1 ha0 ha1 hb0 hb1 hlt hlt2 h2
+  · have hlt2 : b1.1 < a1.1 := by
+      by_contra hn
+      exact hi ⟨hge, not_lt.1 hn⟩
+    have hlt : b0.1 < a0.1 := by
+      by_contra hn
+      exact hii ⟨not_lt.1 hn, le_of_lt hlt2⟩
+    exact nfc_lt hA hB b0 b1 a0 a1 hb0 hb1 ha0 ha1 hlt hlt2 h1
 
 end Mst
+
+#print axioms Mst.consistent_sound
+#print axioms Mst.diff_trees_complete
+#print axioms Mst.no_false_convergence
